@@ -204,7 +204,10 @@ def _switch(cls):
     expr = b[0].body[0].value
     if any(isinstance(n, ast.Name) and n.id == loopvar for n in ast.walk(expr)):
         raise Untranslatable("_switch_func body uses the loop variable")
-    return Num({"x": "x"}).tr(expr), _src(b[0].body[0])
+    dflt = _defaults(fn).get("order")
+    if not (isinstance(dflt, ast.Constant) and isinstance(dflt.value, int) and not isinstance(dflt.value, bool) and dflt.value >= 0):
+        raise Untranslatable("_switch_func: default order is not a non-negative integer literal")
+    return Num({"x": "x"}).tr(expr), _src(b[0].body[0]), dflt.value
 
 
 def _alpha(cls):
@@ -246,9 +249,29 @@ def _alpha(cls):
     return cutoff, _src(dflt), u, _src(a0), al, _src(a1), clips
 
 
+def resolve_call(call, params, what):
+    """bind the arguments of `call` to the parameter names `params` (positional, then keywords) -> {name: ast node};
+    a parameter that is not passed is absent from the result (the callee's default applies)."""
+    if any(isinstance(a, ast.Starred) for a in call.args) or any(k.arg is None for k in call.keywords):
+        raise Untranslatable(f"{what}: star arguments in `{_src(call)}`")
+    if len(call.args) > len(params):
+        raise Untranslatable(f"{what}: too many positional arguments in `{_src(call)}`")
+    bound = dict(zip(params, call.args))
+    for k in call.keywords:
+        if k.arg not in params:
+            raise Untranslatable(f"{what}: unknown keyword `{k.arg}` in `{_src(call)}`")
+        if k.arg in bound:
+            raise Untranslatable(f"{what}: `{k.arg}` passed twice in `{_src(call)}`")
+        bound[k.arg] = k.value
+    return bound
+
+
 def _weights_formulas(cls, meth):
-    """`alpha = BeckeWeights._calculate_alpha(radii)`, `v_pp = …`, `s_ab = …` of a weights method."""
+    """`alpha = BeckeWeights._calculate_alpha(…)`, `v_pp = …`, `s_ab = …` of a weights method.  The arguments of the
+    two calls are bound against the callee's signature: what is passed for `cutoff` / `order` is generated text,
+    an omitted argument becomes the callee's (generated) default."""
     fn = _method(cls, meth)
+    own = [a.arg for a in fn.args.args] + [a.arg for a in fn.args.kwonlyargs]
     found = {}
     for st in ast.walk(fn):
         if isinstance(st, ast.Assign) and len(st.targets) == 1 and isinstance(st.targets[0], ast.Name):
@@ -260,22 +283,57 @@ def _weights_formulas(cls, meth):
     for t in ("alpha", "v_pp", "s_ab"):
         if t not in found:
             raise Untranslatable(f"{meth}: no assignment to `{t}`")
-    if _src(found["alpha"].value) != "BeckeWeights._calculate_alpha(radii)":
-        raise Untranslatable(f"{meth}: alpha is `{_src(found['alpha'].value)}` (expected the default-cutoff call)")
+    # -- alpha = BeckeWeights._calculate_alpha(radii[, cutoff])
+    ac = found["alpha"].value
+    if not (isinstance(ac, ast.Call) and _src(ac.func) in ("BeckeWeights._calculate_alpha", "self._calculate_alpha")):
+        raise Untranslatable(f"{meth}: alpha is `{_src(ac)}`")
+    sig = [a.arg for a in _method(cls, "_calculate_alpha").args.args]
+    bound = resolve_call(ac, sig, meth)
+    if "radii" not in bound or _src(bound["radii"]) != "radii":
+        raise Untranslatable(f"{meth}: first argument of `{_src(ac)}` is not `radii`")
+    if "cutoff" not in bound:
+        cut = "defaultCutoff"
+    else:
+        env = {"cutoff": "cutoff"} if "cutoff" in own else {}
+        cut = Num(env).tr(bound["cutoff"])
+    alpha = f"alphaClip (alphaRaw (uAB ra rb)) {cut}"
+
+    # -- BeckeWeights._switch_func(v_pp[, order])
+    ssig = [a.arg for a in _method(cls, "_switch_func").args.args]
 
     def sw(num, call):
-        if len(call.args) == 1 and len(call.keywords) == 1 and call.keywords[0].arg == "order" and _src(call.keywords[0].value) == "self._order":
-            return f"(switchFunc {num.tr(call.args[0])} order)"
-        raise Untranslatable(f"{meth}: switch call `{_src(call)}`")
+        b = resolve_call(call, ssig, meth)
+        if "x" not in b:
+            raise Untranslatable(f"{meth}: switch call `{_src(call)}` without argument")
+        if "order" not in b:
+            o = "switchDefaultOrder"
+        elif _src(b["order"]) == "self._order":
+            o = "order"
+        elif isinstance(b["order"], ast.Constant) and isinstance(b["order"].value, int) and not isinstance(b["order"].value, bool) and b["order"].value >= 0:
+            o = str(b["order"].value)
+        else:
+            raise Untranslatable(f"{meth}: order argument of `{_src(call)}`")
+        return f"(switchFunc {num.tr(b['x'])} {o})"
 
     nu = Num({"mu_p_n_n": "mu", "alpha": "alpha"}).tr(found["v_pp"].value)
-    s = Num({"v_pp": "v"}, calls={"BeckeWeights._switch_func": sw}).tr(found["s_ab"].value)
+    s = Num({"v_pp": "v"}, calls={"BeckeWeights._switch_func": sw, "self._switch_func": sw}).tr(found["s_ab"].value)
     # the nan -> 1 replacement and the product along the last axis must be there (modelled by hand as "skip B = A")
     text = _src(fn)
     for needle in ("s_ab[np.isnan(s_ab)] = 1", "s_ab = np.prod(s_ab, axis=-1)", "np.sum("):
         if needle not in text:
             raise Untranslatable(f"{meth}: `{needle}` not found")
-    return nu, _src(found["v_pp"]), s, _src(found["s_ab"])
+    return dict(alpha=alpha, alpha_src=_src(found["alpha"]), nu=nu, nu_src=_src(found["v_pp"]), s=s, s_src=_src(found["s_ab"]),
+                has_cutoff="cutoff" in own)
+
+
+def _caw_cutoff_default(cls):
+    fn = _method(cls, "compute_atom_weight")
+    if [a.arg for a in fn.args.args] != ["self", "points", "atcoords", "atnums", "select", "cutoff"]:
+        raise Untranslatable("compute_atom_weight signature")
+    dflt = _defaults(fn).get("cutoff")
+    if not (isinstance(dflt, ast.Constant) and isinstance(dflt.value, (int, float)) and not isinstance(dflt.value, bool)):
+        raise Untranslatable("compute_atom_weight: default cutoff is not a numeric literal")
+    return Num({}).tr(dflt), _src(dflt)
 
 
 def _call(cls):
@@ -368,10 +426,13 @@ def lean_text():
     cls = next((n for n in tree.body if isinstance(n, ast.ClassDef) and n.name == "BeckeWeights"), None)
     if cls is None:
         raise Untranslatable("class BeckeWeights not found")
-    step, step_src = _switch(cls)
+    step, step_src, sw_default = _switch(cls)
     cutoff, cutoff_src, u, u_src, al, al_src, clips = _alpha(cls)
-    nu_g, nu_g_src, s_g, s_g_src = _weights_formulas(cls, "generate_weights")
-    nu_c, nu_c_src, s_c, s_c_src = _weights_formulas(cls, "compute_atom_weight")
+    fg = _weights_formulas(cls, "generate_weights")
+    fc = _weights_formulas(cls, "compute_atom_weight")
+    if fg["has_cutoff"] or not fc["has_cutoff"]:
+        raise Untranslatable("generate_weights must not, compute_atom_weight must have a `cutoff` parameter")
+    caw_cut, caw_cut_src = _caw_cutoff_default(cls)
     chunk, chunk_src, rng, rng_src, lo, hi, slice_src, ptind, ptind_src = _call(cls)
     radii = _radii_table()
 
@@ -384,6 +445,8 @@ def lean_text():
     P.append(f"def switchStep (x : K) : K :=\n  {step}\n")
     P.append("/-- `_switch_func`: `for _i in range(order): x = …; return x`. -/")
     P.append("def switchFunc (x : K) : Nat → K\n  | 0 => x\n  | order + 1 => switchFunc (switchStep x) order\n")
+    P.append(f"/-- `_switch_func`: default `order={sw_default}` (used by a caller that does not pass `order`). -/")
+    P.append(f"def switchDefaultOrder : Nat :=\n  {sw_default}\n")
     P.append(f"/-- `_calculate_alpha`: default `cutoff={cutoff_src}`. -/")
     P.append(f"def defaultCutoff : K :=\n  {cutoff}\n")
     P.append(f"/-- `_calculate_alpha`: `{u_src}` (entry `[A, B]`, `ra = radii[A]`, `rb = radii[B]`). -/")
@@ -398,13 +461,17 @@ def lean_text():
     for op, bound, val, _s in clips:
         P.append(f"  let alpha := if alpha {op} {bound} then {val} else alpha")
     P.append("  alpha\n")
-    P.append("/-- `alpha = BeckeWeights._calculate_alpha(radii)` as called by both weight routines (default cutoff). -/")
-    P.append("def alpha [LT K] [DecidableLT K] (ra rb : K) : K :=\n  alphaClip (alphaRaw (uAB ra rb)) defaultCutoff\n")
-    for tag, nu, nu_src, s, s_src, meth in (("GW", nu_g, nu_g_src, s_g, s_g_src, "generate_weights"), ("CAW", nu_c, nu_c_src, s_c, s_c_src, "compute_atom_weight")):
-        P.append(f"/-- `{meth}`: `{nu_src}`. -/")
-        P.append(f"def nu{tag} (mu alpha : K) : K :=\n  {nu}\n")
-        P.append(f"/-- `{meth}`: `{s_src}`. -/")
-        P.append(f"def s{tag} (v : K) (order : Nat) : K :=\n  {s}\n")
+    P.append(f"/-- `generate_weights`: `{fg['alpha_src']}` (entry `[A, B]`; an omitted `cutoff` is the default of `_calculate_alpha`). -/")
+    P.append(f"def alpha [LT K] [DecidableLT K] (ra rb : K) : K :=\n  {fg['alpha']}\n")
+    P.append(f"/-- `compute_atom_weight(…, cutoff={caw_cut_src})`: the default of its own `cutoff` parameter. -/")
+    P.append(f"def cawDefaultCutoff : K :=\n  {caw_cut}\n")
+    P.append(f"/-- `compute_atom_weight`: `{fc['alpha_src']}`; `cutoff` is the parameter of `compute_atom_weight`. -/")
+    P.append(f"def alphaCAW [LT K] [DecidableLT K] (ra rb cutoff : K) : K :=\n  {fc['alpha']}\n")
+    for tag, f, meth in (("GW", fg, "generate_weights"), ("CAW", fc, "compute_atom_weight")):
+        P.append(f"/-- `{meth}`: `{f['nu_src']}`. -/")
+        P.append(f"def nu{tag} (mu alpha : K) : K :=\n  {f['nu']}\n")
+        P.append(f"/-- `{meth}`: `{f['s_src']}`; `order` is `self._order`. -/")
+        P.append(f"def s{tag} (v : K) (order : Nat) : K :=\n  {f['s']}\n")
     P.append("end\n")
     P.append(f"/-- `__call__`: `{chunk_src}`. -/")
     P.append(f"def chunkSize (npoints natom : Nat) : Nat :=\n  {chunk}\n")
